@@ -37,6 +37,13 @@ CHECKS["C07"] = dict(
     ref="2/C07",
 )
 
+CHECKS["C05"] = dict(
+    technique="reference-model monitor with sentinels: every candidate referent carries a distinct value; delivered values vs the reference environment chain",
+    text="Templates nest wx:for scopes (default and renamed item/index drawn from a 6-name pool so that shadowing is the norm), slot-value scopes on children of a dynamic-slots component, script modules and <template name> bodies; probe bindings place one identifier at every child position of every expression form. Data fields, modules, slot values and loop items carry distinct sentinels, so the delivered value names the scope that was read; it is compared with the reference environment chain. Held on the templates observed.",
+    note="Trusted: the reference environment chain (ref.mjs), the loader, the child component compiled by the same compiler.",
+    ref="2/C05",
+)
+
 NOT_YET = {}
 
 
